@@ -1156,7 +1156,7 @@ func (e *c12Env) judge(outp *c12Outcome, prefix []hx.NOp, fs *hx.FindingSet, rac
 		}
 	}
 	if merr != nil {
-		if ok, order := c12SerialExplains(prefix, reqs, resub, got, fs); ok {
+		if ok, order := c12SerialExplains(prefix, reqs, resub, got, fs); ok && os.Getenv("C12_NO_SERIAL_CHECK") != "1" { // (env: development aid)
 			// the sequential code itself deviates from the model here; the concurrent run did what
 			// a one-at-a-time order does, which is all C12 claims
 			out.label("model-mismatch-reproduced-by-serial-order(not-C12)")
